@@ -10,7 +10,7 @@ import os
 import re
 import shutil
 
-from .. import classify, clock, crash, drive, hist, world
+from .. import classify, clock, crash, drive, hist, strace, world
 from ..oracle import refhash, xmlread
 
 LEVEL = "fault_enumeration"
@@ -137,7 +137,40 @@ def run_case(cs):
         cs.cls(kind, role, mode, "prior%d" % prior)
         ctx = {**ctx0, "crash_at": k, "mode": mode, "event": kind, "role": role, "path": path.replace(d, "")}
         _judge(cs, root, S, R, ctx, prior, child_prior)
+    # ---- I7: real SIGKILLs in a sub-process under strace (real buffering, real kill semantics)
+    if strace.available() and (cs.tier == "thorough" or cs.rng.random() < 0.2):
+        _real_kills(cs, d, state, work, root, argv, S, ctx0, prior, child_prior, 12 if cs.tier == "thorough" else 4)
     cs.sample({**ctx0, "points": len(points), "first_events": [[e[1], _role(e[2], root)] for e in E[:12]]})
+
+
+def _real_kills(cs, d, state, work, root, argv, S, ctx0, prior, child_prior, cap):
+    rng = cs.rng
+
+    def fresh():
+        shutil.rmtree(work, ignore_errors=True)
+        shutil.copytree(state, work, symlinks=True)
+
+    envx = {"VF_NOW": str(NOW), "TZ": "UTC"}
+    fresh()
+    rc, counts = strace.count_syscalls("bare:create", argv[0:1] + argv[1:], os.path.join(d, "count.log"), extra_env=envx)
+    if rc not in (0, 10, 11):
+        cs.skip("strace-reference-exit-%s" % rc)
+        return
+    R = hist.listing(root)
+    pts = [("write", n) for n in range(1, counts.get("write", 0) + 1)] + [("rename", n) for n in range(1, counts.get("rename", 0) + 1)] + [("mkdir", n) for n in range(1, counts.get("mkdir", 0) + 1)]
+    rng.shuffle(pts)
+    for call, n in sorted(pts[:cap]):
+        fresh()
+        rc = strace.kill_at("bare:create", argv, call, n, extra_env=envx)
+        if rc != -9:
+            cs.count("real_kill_not_delivered")
+            continue
+        cs.evaluated()
+        cs.count("real_sigkill_points")
+        cs.count("real_kill:" + call)
+        cs.cls("sigkill", call, "prior%d" % prior)
+        ctx = {**ctx0, "crash_at": n, "mode": "sigkill", "event": "syscall:" + call, "role": "n/a", "path": ""}
+        _judge(cs, root, S, R, ctx, prior, child_prior)
 
 
 def _parses(data, chain):
